@@ -497,6 +497,11 @@ impl LiveActor {
         match result {
             Err(ConnectError::RemoteAbort(AbortReason::AlreadySyncing)) => {
                 debug!(?reason, "remote abort, already syncing");
+                // Usually the remote declined because it is dialing us at the same time and we
+                // accept (or already accepted) its request. But if that request never arrives,
+                // or the remote was merely still busy finishing a previous exchange, nothing
+                // else would ever free our sync state for this peer.
+                self.state.abort_connect(&namespace, peer);
             }
             res => {
                 self.on_sync_finished(
